@@ -6,7 +6,7 @@ from .. import oracles as orc
 from ..gen import J
 
 PROP = "C01"
-HOSTILE = ('scale',)
+HOSTILE = ('scale', 'special')
 MONITORS = ("WF", "SPEC")
 REQUIRED_MONITORS = ("WF",)
 ANCHORS = [("factor.py", "ConjugateFactor._multiply_with_measure"),
